@@ -288,4 +288,34 @@ var corpusCases = []corpusCase{
 		r.opSeek(0, seekRange{pfx: daoPrefix})
 		r.o.Count("corpus:flush-overlap")
 	}},
+	// SeekAsync / System.Storage.Find are pinned to the moment of the call (seed C09-m7 takes the top
+	// layer's snapshot lazily, inside the seeking goroutine): Find, then Put / overwrite / Delete under
+	// the prefix in the same layer, then iterate — the iteration is the map as of the call, whether the
+	// seeking goroutine has run before the writes (yield) or provably not (GOMAXPROCS(1)). Shared layer and
+	// private (transaction-level) layer on top, both directions, with and without prefix trimming.
+	{allKinds, func(r *runner) {
+		r.line("new 0 "+r.w.nodes[0].kind, "ok")
+		key := func(b ...byte) []byte { return append(bytes.Clone(daoPrefix), b...) }
+		r.opChangeSet(0, []kv{{key(1), []byte{1}}, {key(2), []byte{2}}, {key(9), []byte{9}}})
+		r.w.addLayer(0, false)
+		r.line("layer 1 0 0", "ok")
+		r.opPut(1, key(3), []byte{3}, false)
+		r.w.addLayer(1, true)
+		r.line("layer 2 1 1", "ok")
+		r.opPut(2, key(4), []byte{4}, true)
+		g := byte(0x10)
+		for _, id := range []int{1, 2} {
+			for _, pinned := range []bool{true, false} {
+				for _, bw := range []bool{false, true} {
+					g++
+					ws := []asyncWrite{{key(5, g), []byte{g}}, {key(2), []byte{g}}, {key(1), nil}, {key(0), []byte{g}}}
+					r.opSeekAsyncWrites(id, seekRange{pfx: daoPrefix, bw: bw, cut: bw}, ws, pinned)
+					r.opSeek(id, seekRange{pfx: daoPrefix})
+					r.opFindWrites(id, nil, bw, []asyncWrite{{key(1), []byte{g}}, {key(5, g), nil}, {key(9), []byte{g}}}, pinned)
+					r.opSeekAsyncWrites(id, seekRange{pfx: key(5), bw: bw, cut: true, lim: 1}, []asyncWrite{{key(5, 0), []byte{g}}}, pinned)
+				}
+			}
+		}
+		r.o.Count("corpus:seekasync-pinned")
+	}},
 }
